@@ -48,6 +48,14 @@ CHECKS = {
    text="Reload.tla models per-field application of object versions (the feature-gate sub-syncer is the one with history; pinned variant refuted, repaired variant verified by TLC: effective = Fresh(latest)); TLC-simulated version histories (one field added/changed/removed/restored per version, delete/re-create) and name histories issued back-to-back (lagging worker, requeues) are replayed on the REAL controller; at every observation the effective configuration projected through public accessors is compared by TLC with the projection of a FRESH real gateway that was given only the latest objects.",
    note="Differential oracle real-vs-real; client connection settings excluded; endpoints never become healthy in this harness. One open known finding (superseded version applied by a lagging/requeued worker).",
    technique="TLC invariant on the reload model + simulated histories replayed into the real controller + TLC trace validation of a fresh-gateway differential"),
+ "C02": dict(cat="model_checking", design="4/C02",
+   text="Pipeline.tla defines, per request class, the terminal of the request and the identity the upstream must be told to act as (Kubernetes impersonation semantics); TLC enumerates identities x impersonation requests (user / service account / anonymous, groups, escaped extra keys) x other Impersonate-* headers x authorizer answers x header casing as initial states; every case is sent as a real HTTP request through the REAL handler chain + dispatcher + per-endpoint transports to TLS/HTTP2 stub upstreams, and TLC validates what each stub received: gateway credential only, exactly the expected user/groups/extras, no other Impersonate-* header; denied or malformed impersonations are not forwarded.",
+   note="Authenticator/authorizer scripted; identities restricted to bytes a header can carry.",
+   technique="TLC case enumeration over request classes + real HTTP replay + TLC trace validation"),
+ "C04": dict(cat="exploration", design="4/C04",
+   text="The terminate-or-forward automaton of Pipeline.tla (stage order, status table, Retry-After) is enumerated by TLC over all stage combinations and validated by TLC against the real chain's answers (nothing reaches a stub when the gateway answers itself); byte fidelity of forwarded requests and relayed responses is decided by direct comparison over method x escaped path x query x header x body x upstream-response shapes (decoded path, decoded query pairs, body digests, header multimaps, additions only from an allow-list).",
+   note="Byte fidelity is outside what a TLA+ model can state (DESIGN section 5): direct comparison; malformed queries outside the decided domain.",
+   technique="TLC-enumerated terminate/forward automaton validated on real HTTP + direct byte comparison"),
 }
 
 NOT_YET = {}
